@@ -1,3 +1,4 @@
+import NitroVerif.Lemmas.OptResult
 import NitroVerif.Model.Opt
 import NitroVerif.Spec.Opt
 import NitroVerif.Generated.ToggleVocab
@@ -176,5 +177,58 @@ theorem check_sources (env : Env) (s : Dyn) (t : TogD) :
 
 example : parseEnvWord ['m','a','y','b','e'] = none := by decide
 example : parseEnvWord ['W','i','t','h'] = some true := by decide
+
+
+/-- each long spelling adds one, each occurrence of the letter in a short token adds one -/
+theorem posCount_cons (t : TogD) (it : Item) (rest : List Item) :
+    posCount t (it :: rest) = (match it with
+      | .togLong n => if n = t.name then 1 else 0
+      | .togShort ls => (match t.short with | some c => ls.count c | none => 0)
+      | _ => 0) + posCount t rest := by
+  simp only [posCount, List.map_cons, List.sum_cons]
+  cases it <;> first | rfl | (cases t.short <;> rfl)
+
+/-- The toggle rules, read off the specification. -/
+theorem interpTog_rules (env : Env) (items : List Item) (t : TogD) :
+    (negCount t items = 0 → posCount t items > 0 → interpTog env items t = .ok (posCount t items, true)) ∧
+    (negCount t items > 0 → t.reversible = true → posCount t items = 0 → interpTog env items t = .ok (0, true)) ∧
+    (negCount t items > 0 → t.reversible = false → interpTog env items t = .error .user) ∧
+    (negCount t items > 0 → posCount t items > 0 → interpTog env items t = .error .user) ∧
+    (negCount t items = 0 → posCount t items = 0 → envNonEmpty env t.env = none →
+        interpTog env items t = .ok (t.dflt, false)) ∧
+    (negCount t items = 0 → posCount t items = 0 → ∀ e, envNonEmpty env t.env = some e →
+        interpTog env items t = match parseEnvWord e with
+          | some b => .ok (if b then 1 else 0, true)
+          | none => .error .user) := by
+  unfold interpTog
+  simp only
+  refine ⟨?_, ?_, ?_, ?_, ?_, ?_⟩
+  · intro hn hp; simp [hn, hp]
+  · intro hn hr hp; simp [hn, hr, hp]
+  · intro hn hr; simp [hn, hr]
+  · intro hn hp
+    by_cases hr : t.reversible = true
+    · simp [hn, hp, hr]
+    · have : t.reversible = false := by simpa using hr
+      simp [hn, this]
+  · intro hn hp he; simp [hn, hp, he]
+  · intro hn hp e he; simp only [hn, hp, he]; cases parseEnvWord e <;> simp
+
+/-- **The rules hold for `parse`**: on success every toggle is reported with the count
+`interpTog` assigns it from the explanation of the command line and the environment. -/
+theorem parse_toggles (d : Decl) (hn : (allNames d).Nodup) (env : Env) (argv : List Str) (r : Result)
+    (h : parse d env argv = .ok r) :
+    ∃ items, explain d argv = some items ∧
+      ∀ t ∈ d.togs, ∃ c p, interpTog env items t = .ok (c, p) ∧ (t.name, c) ∈ r.togs ∧ (p = true → t.name ∈ r.provided) := by
+  obtain ⟨_, items, hex, hi⟩ := parse_ok_inv d hn env argv r h
+  exact ⟨items, hex, (interp_ok_inv d env items r hi).2.2.2.2⟩
+
+/-- both polarities in either order, or `--no-` on a toggle that is not reversible: rejected -/
+theorem parse_toggle_conflict (d : Decl) (hn : (allNames d).Nodup) (hc : consistent d = true) (env : Env)
+    (argv : List Str) (items : List Item) (t : TogD) (ht : t ∈ d.togs) (hex : explain d argv = some items)
+    (hneg : negCount t items > 0) (hbad : t.reversible = false ∨ posCount t items > 0) :
+    parse d env argv = .error .user := by
+  rw [parse_of_explain d hn hc env argv items hex]
+  exact interp_of_bad d env items (Or.inr (Or.inl ⟨t, ht, hneg, hbad⟩))
 
 end NitroVerif.Props.C11
